@@ -51,7 +51,10 @@ def history_ok(steps):
     try:
         for i, (rs, t, bs) in enumerate(steps):
             ref = run(rs, None, t, bs)
-            got = run(rs, d, t, bs)
+            try:
+                got = run(rs, d, t, bs)
+            except Exception as e:
+                return "step %d (threshold %r, batch size %r): the cached run raised %r" % (i, t, bs, e)
             if got != ref:
                 return "step %d (threshold %r, batch size %r): cached run differs from the uncached run: %r vs %r" % (i, t, bs, got[0][:2], ref[0][:2])
         return None
@@ -64,7 +67,10 @@ def crash_ok(rs, t, mode, frac):
     d = tempfile.mkdtemp(prefix="c12c_")
     try:
         ref = run(rs, None, t)
-        run(rs, d, t)
+        try:
+            run(rs, d, t)
+        except Exception as e:
+            return "the first cached run raised %r" % (e,)
         files = sorted(glob.glob(os.path.join(d, "*.cache")))
         if not files:
             return "no cache entry was written"
@@ -91,8 +97,56 @@ def crash_ok(rs, t, mode, frac):
         shutil.rmtree(d, ignore_errors=True)
 
 
+def cache_key(batch, **cfg):
+    """the key the real Balancer computes for a batch under a configuration"""
+    from synrbl import Balancer
+    from synrbl.SynUtils.batching import CacheManager
+    d = tempfile.mkdtemp(prefix="c12k_")
+    try:
+        kw = dict(n_jobs=1)
+        kw.update(cfg)
+        b = _BAL.get(json.dumps(cfg, sort_keys=True))
+        if b is None:
+            b = _BAL[json.dumps(cfg, sort_keys=True)] = Balancer(**kw)
+        cm = CacheManager(cache_dir=d)
+        return b._Balancer__try_cache(cm, batch)[2]
+    finally:
+        shutil.rmtree(d, ignore_errors=True)
+
+
+_BAL = {}
+
+
+def key_collisions(tier):
+    """distinct (batch, configuration) pairs must get distinct keys (exhaustive over a small structured family)"""
+    import itertools
+    vals = ["a", "ab", "b", "", "a>>b", "b>>a"]
+    cols = ["reaction", "r"]
+    rows = [{c: v} for c in cols for v in vals] + [{"reaction": "a", "tag": "b"}, {"reaction": "ab", "tag": ""}, {"reaction": "a", "tag": 1},
+                                                    {"reaction": "a", "tag": "1"}]
+    batches = [[r] for r in rows]
+    batches += [list(p) for p in itertools.product(rows[:8], repeat=2)]
+    if tier != "quick":
+        batches += [list(p) for p in itertools.product(rows[:5], repeat=3)]
+    seen = {}
+    out = []
+    n = 0
+    for cfg in ({}, {"confidence_threshold": 0.5}, {"reaction_col": "r"}):
+        for b in batches:
+            n += 1
+            k = cache_key(b, **cfg)
+            ident = json.dumps([b, cfg], sort_keys=True)
+            if k in seen and seen[k] != ident:
+                out.append(({"kind": "key", "a": json.loads(seen[k]), "b": json.loads(ident)},
+                            "two different (batch, configuration) pairs share one cache key: %s and %s" % (seen[k], ident)))
+            seen.setdefault(k, ident)
+    return n, out
+
+
 def replay(d):
     inp = d["input"]
+    if inp["kind"] == "key":
+        return cache_key(inp["a"][0], **inp["a"][1]) == cache_key(inp["b"][0], **inp["b"][1])
     if inp["kind"] == "history":
         return history_ok([tuple(s) for s in inp["steps"]]) is not None
     if inp["kind"] == "crash":
@@ -108,6 +162,9 @@ def check(run_):
     run_.data_obligation("frame:cache-key-covers-configuration",
                          {"batch", "confidence_threshold", "reaction_col", "id_col", "remove_aam"} <= args,
                          "the cache key is computed from the batch and from every configuration field that influences the result (found: %s)" % sorted(args))
+    n, coll = key_collisions(run_.tier)
+    run_.bounded("key-injectivity", "all batches of 1-2 rows (3 in the thorough tier) over 2 column names x 6 values + typed extras, under 3 configurations",
+                 n, n, coll[:4], True)
     rnd = random.Random(run_.seed)
     A, B = REACTIONS[:4], REACTIONS[2:7]
     histories = [
